@@ -86,6 +86,15 @@ def instances(tier, seed):
                             [(("e", "e"), 1, 2), (("e", "e", "e"), 1, 2), (("e", "e", "e"), 2, 2), (("e", "w", "e"), 1, 3), (("e", "e", "e", "e"), 2, 2), (("e", "e", "e"), 3, 2),
                              (("e", "e", "e"), 3, 1), (("e", "e"), 2, 1), (("e", "e", "e"), 0, 1), (("e", "e", "e", "e"), 2, 1), (("e", "e", "e", "e"), 4, 2), (("e", "w", "e", "w"), 2, 1)]):
         add("random", kinds=kinds, qntot=qntot, m=m)
+    # long thin chains (11 sites): label bookkeeping that runs over more than ten bonds / two-digit site indices
+    k11 = tuple(["e"] * 11)
+    for occ in ((0, 1, 0, 0, 1, 0, 0, 0, 1, 0, 0), (1,) + (0,) * 9 + (1,), (0,) * 11):
+        for qn_idx in (0, 5, 10, None):
+            add("hartree", kinds=k11, occ=occ, qn_idx=qn_idx)
+    add("random", kinds=k11, qntot=3, m=1)
+    add("random", kinds=k11, qntot=1, m=1)
+    if tier == "thorough":
+        add("random", kinds=k11, qntot=1, m=2)
     # (d) masks
     for kinds, bonds in shapes[:2]:
         n = len(kinds)
